@@ -6,11 +6,14 @@
         expressions and as statements, return, recursion bounded by the fuel);
      2. list comprehensions (filtered and unfiltered, one or several loop names) and for / comprehensions over range(...)
         with a positive step, for loops with several names;
-     3. the builtins len, str (scalars), bool, any, all, reversed, sorted (no key; ints only or strings only), min, max
-        (enumerate, zip and dict.items() were written and sanity-checked but are REFUSED here: their simulation is not proved);
+     3. the builtins len, str (scalars), bool, any, all, reversed, sorted (no key; ints only or strings only; reverse= also as
+        a keyword), min, max, enumerate, zip (lists of equal length);
      4. dict literals whose keys are written in strictly ascending order, indexing of lists / strings / dicts, `in` on lists
-        of scalars and on dicts, the methods get / keys / values;
-     5. the string methods join, split (with a separator), startswith, endswith, upper, lower (ASCII).
+        of scalars and on dicts, the methods get / keys / values / items, d | e when the merged keys are again ascending;
+     5. the string methods join, split (with a separator), startswith, endswith, upper, lower (ASCII);
+     6. (third deepening) `fmt % x` for a string or int x with the verbs %s %d %%, slices l[a:b] of lists and of strings
+        without multi-byte runes whose normalised bounds satisfy 0 <= a <= b (asp raises otherwise, CPython clamps),
+        unpacking assignment a, b = e.
    The evaluator is parametrised by the integer operators exactly as in C16_Pure.v and refuses (Err EUnsupported) at every
    type-dependent trigger of a known difference between asp and CPython.  `pure2_run fuel p = Ok g` is the formal reading
    of "p stays in the enlarged fragment, and integer arithmetic is safe along the run"; Proof/C16_Pure2.v proves that then
@@ -175,6 +178,56 @@ Definition qindex (obj idx : qval) : res qval :=
   | _, _ => Err EUnsupported
   end.
 
+(* interpretSlice: the bound as asp normalises it (pyIndex with the slice flag) *)
+Definition qbound (len : nat) (o : option qval) (def : Z) : res Z :=
+  match o with
+  | None => Ok def
+  | Some (QInt i) => py_index len i true
+  | Some _ => Err EType
+  end.
+
+Definition qcut {A} (l : list A) (a b : Z) : list A := firstn (Z.to_nat (b - a)) (skipn (Z.to_nat a) l).
+
+(* obj[lo:hi].  Refused: bounds with a < 0 or b < a after normalisation (asp raises, CPython clamps to an empty result), and
+   strings with multi-byte runes (asp normalises against the rune count and cuts BYTES) *)
+Definition qslice (obj : qval) (lo hi : option qval) : res qval :=
+  match obj with
+  | QList l =>
+      do a <- qbound (length l) lo 0;
+      do b <- qbound (length l) hi (Z.of_nat (length l));
+      if (0 <=? a) && (a <=? b) then Ok (QList (qcut l a b)) else Err EUnsupported
+  | QStr x =>
+      if existsb is_cont x then Err EUnsupported else
+      do a <- qbound (length x) lo 0;
+      do b <- qbound (length x) hi (Z.of_nat (length x));
+      if (0 <=? a) && (a <=? b) then Ok (QStr (qcut x a b)) else Err EUnsupported
+  | _ => Err EUnsupported
+  end.
+
+(* fmt % args for the verbs %s %d %% (fmt_go of Model/C16_Eval.v on tree values) *)
+Fixpoint qfmt (f : str) (args : list qval) : res str :=
+  match f with
+  | [] => match args with [] => Ok [] | _ => Err EUnsupported end
+  | 37%N :: 37%N :: r => do x <- qfmt r args; Ok (37%N :: x)
+  | 37%N :: 115%N :: r =>
+      match args with
+      | a :: ar => match qstr a with
+                   | Some x => do y <- qfmt r ar; Ok (x ++ y)
+                   | None => Err EUnsupported
+                   end
+      | [] => Err EUnsupported
+      end
+  | 37%N :: 100%N :: r =>
+      match args with
+      | QInt z :: ar => do y <- qfmt r ar; Ok (z_to_str z ++ y)
+      | _ => Err EUnsupported
+      end
+  | 37%N :: _ => Err EUnsupported
+  | c :: r => do x <- qfmt r args; Ok (c :: x)
+  end.
+
+Definition qas_list (v : qval) : res (list qval) := match v with QList l => Ok l | _ => Err EType end.
+
 (* ---------------------------------------------------------------- the native builtins on tree values *)
 Definition qnative (fuel : nat) (n : str) (args : list qval) : res qval :=
   let arg (i : nat) := nth i args QNone in
@@ -191,8 +244,20 @@ Definition qnative (fuel : nat) (n : str) (args : list qval) : res qval :=
     | S _ => match qstr (arg 0%nat) with Some x => Ok (QStr x) | None => Err EUnsupported end   (* containers: Go formatting *)
     end
   else if str_eqb n (s "bool") then Ok (QBool (qtruthy (arg 0%nat)))
-  else if str_eqb n (s "enumerate") then Err EUnsupported   (* not proved yet: outside the fragment *)
-  else if str_eqb n (s "zip") then Err EUnsupported
+  else if str_eqb n (s "enumerate") then
+    match arg 0%nat with
+    | QList l => Ok (QList (map QList (map (fun iv => [QInt (Z.of_nat (fst iv)); snd iv]) (combine (seq 0%nat (length l)) l))))
+    | _ => Err EType
+    end
+  else if str_eqb n (s "zip") then
+    do ls <- mapR qas_list args;
+    match ls with
+    | [] => Err EType
+    | l0 :: _ =>
+        if forallb (fun l => Nat.eqb (length l) (length l0)) ls
+        then Ok (QList (map QList (map (fun i => map (fun l => nth i l QNone) ls) (seq 0%nat (length l0)))))
+        else Err EUnsupported        (* asp raises, CPython truncates *)
+    end
   else if str_eqb n (s "any") then match arg 0%nat with QList l => Ok (QBool (existsb qtruthy l)) | _ => Err EType end
   else if str_eqb n (s "all") then match arg 0%nat with QList l => Ok (QBool (forallb qtruthy l)) | _ => Err EType end
   else if str_eqb n (s "reversed") then match arg 0%nat with QList l => Ok (QList (rev l)) | _ => Err EType end
@@ -254,7 +319,7 @@ Definition qnative_method (n : str) (args : list qval) : res qval :=
         end
       else if str_eqb n (s "keys") then Ok (QList (map (fun kv => QStr (fst kv)) kvs))
       else if str_eqb n (s "values") then Ok (QList (map (@snd _ _) kvs))
-      else if str_eqb n (s "items") then Err EUnsupported
+      else if str_eqb n (s "items") then Ok (QList (map QList (map (fun kv => [QStr (fst kv); snd kv]) kvs)))
       else Err EUnsupported
   | _ => Err EUnsupported
   end.
@@ -265,20 +330,44 @@ Fixpoint qmapR {A B} (g : A -> res B) (l : list A) : res (list B) :=
   | x :: r => do y <- g x; do ys <- qmapR g r; Ok (y :: ys)
   end.
 
-(* callNative: positional arguments only *)
-Definition qnative_loop (ev : expr -> res qval) (sg : list (str * N * option qval)) (varargs : bool)
-  : list (option str * expr) -> nat -> list (option qval) -> list qval -> res (list (option qval) * list qval) :=
-  fix go (l : list (option str * expr)) (i : nat) (slots : list (option qval)) (extra : list qval) :=
+Fixpoint qfind_slot (k : str) (sg : list (str * N * option qval)) (j : nat) : option nat :=
+  match sg with
+  | [] => None
+  | (a, _, _) :: sr => if str_eqb a k then Some j else qfind_slot k sr (S j)
+  end.
+
+(* the keyword arguments of a builtin that CPython knows under the same name *)
+Definition qkwok (n k : str) : bool := str_eqb n (s "sorted") && str_eqb k (s "reverse").
+
+(* callNative.  kw: a keyword argument has been seen.  Refused: a keyword the whitelist kwok does not have (CPython names the
+   parameters of its builtins differently or takes them by position only), a positional argument after a keyword one (not
+   Python), a keyword for a slot that is already filled (asp overwrites, CPython raises) *)
+Definition qnative_loop (ev : expr -> res qval) (kwok : str -> bool) (sg : list (str * N * option qval)) (varargs : bool)
+  : list (option str * expr) -> nat -> bool -> list (option qval) -> list qval -> res (list (option qval) * list qval) :=
+  fix go (l : list (option str * expr)) (i : nat) (kw : bool) (slots : list (option qval)) (extra : list qval) :=
     match l with
     | [] => Ok (slots, extra)
     | (None, e) :: r =>
+        if kw then Err EUnsupported else
         if Nat.leb (length sg) i then
-          (if varargs then do v <- ev e; go r (S i) slots (extra ++ [v]) else Err EType)
+          (if varargs then do v <- ev e; go r (S i) false slots (extra ++ [v]) else Err EType)
         else
           let '(_, t, def) := nth i sg ([], 0%N, None) in
           do v <- ev e; do v' <- qvalidate t def v;
-          go r (S i) (list_set i (Some v') slots) extra
-    | (Some _, _) :: _ => Err EUnsupported
+          go r (S i) false (list_set i (Some v') slots) extra
+    | (Some k, e) :: r =>
+        if negb (kwok k) then Err EUnsupported else
+        match qfind_slot k sg 0%nat with
+        | None => Err EType
+        | Some j =>
+            match nth j slots None with
+            | Some _ => Err EUnsupported
+            | None =>
+                let '(_, t, def) := nth j sg ([], 0%N, None) in
+                do v <- ev e; do v' <- qvalidate t def v;
+                go r (S i) true (list_set j (Some v') slots) extra
+            end
+        end
     end.
 
 Definition qfill_defaults (filled : list (option qval)) (sg : list (str * N * option qval)) : res (list qval) :=
@@ -293,7 +382,7 @@ Definition qnative_args (ev : expr -> res qval) (n : str) (args : list (option s
   | None => Err EUnsupported
   | Some (sg0, varargs) =>
       let sg := qsig_of sg0 in
-      do '(filled, extra) <- qnative_loop ev sg varargs args 0%nat (map (fun _ => @None qval) sg) [];
+      do '(filled, extra) <- qnative_loop ev (qkwok n) sg varargs args 0%nat false (map (fun _ => @None qval) sg) [];
       do vals <- qfill_defaults filled sg;
       Ok (vals ++ extra)
   end.
@@ -458,11 +547,25 @@ Definition qapply_bin (fuel : nat) (o : binop) (a b : qval) : res qval :=
               match o with
               | Add => Ok (QStr (x ++ y))
               | C16_Syntax.Lt | C16_Syntax.Gt | Le | Ge => Ok (QBool (cmp_by o (str_cmp x y)))
+              | Mod => do r <- qfmt x [b]; Ok (QStr r)
+              | _ => Err EUnsupported
+              end
+          | QStr x, QInt _ =>
+              match o with
+              | Mod => do r <- qfmt x [b]; Ok (QStr r)
               | _ => Err EUnsupported
               end
           | QList x, QList y =>
               match o with
               | Add => Ok (QList (x ++ y))
+              | _ => Err EUnsupported
+              end
+          | QDict x, QDict y =>
+              match o with
+              | Union =>
+                  (* the keys of x, then the new keys of y: asp enumerates the result sorted, CPython in this order *)
+                  let m := fold_left (fun acc kv => qenv_set (fst kv) (snd kv) acc) y x in
+                  if ssorted (map (@fst _ _) m) then Ok (QDict m) else Err EUnsupported
               | _ => Err EUnsupported
               end
           | _, _ => Err EUnsupported
@@ -575,6 +678,11 @@ with qeval_vexpr (fuel : nat) (x : vexpr) (ps : qstate) {struct fuel} : res qval
           do obj <- qeval_vexpr f b ps;
           do idx <- qeval_expr f i ps;
           qindex obj idx
+      | XSlice b lo hi =>
+          do obj <- qeval_vexpr f b ps;
+          do lov <- match lo with None => Ok None | Some e => do v <- qeval_expr f e ps; Ok (Some v) end;
+          do hiv <- match hi with None => Ok None | Some e => do v <- qeval_expr f e ps; Ok (Some v) end;
+          qslice obj lov hiv
       | XCall n args =>
           match qlookup n ps with
           | Some (QFunc id) => qcall_user qeval_expr qrun_func f id args ps
@@ -635,6 +743,12 @@ with qexec_stmt (fuel : nat) (s0 : stmt) (ps : qstate) {struct fuel} : res (qsre
               | QList _ => Err EUnsupported        (* += on a list: rebinding in asp, in-place in CPython *)
               | _ => do r <- qapply_bin f Add old v; Ok (QRNone, qset_var n r ps)
               end
+          end
+      | SUnpack names e =>
+          do v <- qeval_expr f e ps;
+          match names with
+          | [] | [_] => Err EUnsupported
+          | _ => do ps1 <- qunpack names v ps; Ok (QRNone, ps1)
           end
       | SAssert e => do v <- qeval_expr f e ps; if qtruthy v then Ok (QRNone, ps) else Err EType
       | SReturn None => Ok (QRRet QNone, ps)
@@ -744,7 +858,7 @@ Fixpoint pure2_expr (n : nat) (e : expr) : bool :=
           pure2_vexpr k v
           && forallb (fun i => match i with
                                | OBin o x => pure2_vexpr k x
-                                             && negb (match o with Is | IsNot | Union | Div => true | _ => false end)
+                                             && negb (match o with Is | IsNot | Div => true | _ => false end)
                                | OUn _ => true
                                end) ops
           && ops_safe (items_of ops)
@@ -770,9 +884,14 @@ with pure2_vexpr (n : nat) (x : vexpr) : bool :=
           forallb plain_name names && negb (Nat.eqb (length names) 0) && pure2_expr k e && iter it
           && match cond with None => true | Some c => pure2_expr k c end
       | XIndex b i => pure2_vexpr k b && pure2_expr k i
+      | XSlice b lo hi =>
+          pure2_vexpr k b && match lo with None => true | Some e => pure2_expr k e end
+          && match hi with None => true | Some e => pure2_expr k e end
       | XCall m args =>
           forallb (fun a => pure2_expr k (snd a)) args
-          && (if plain_name m then true else existsb (str_eqb m) pure2_builtins && positional args)
+          && (if plain_name m then true
+              else existsb (str_eqb m) pure2_builtins
+                   && forallb (fun a => match fst a with None => true | Some k => qkwok m k end) args)
       | XMeth b m args => pure2_vexpr k b && existsb (str_eqb m) pure2_methods && forallb (pure2_expr k) args
       | _ => false
       end
@@ -794,6 +913,7 @@ Fixpoint pure2_stmt (n : nat) (inloop infn : bool) (st : stmt) : bool :=
       | SBreak | SContinue => inloop
       | SAssign m e | SAug m e => plain_name m && pure2_expr k e
       | SAssert e => pure2_expr k e
+      | SUnpack names e => forallb plain_name names && Nat.leb 2 (length names) && pure2_expr k e
       | SReturn None => infn
       | SReturn (Some e) => infn && pure2_expr k e
       | SIf c body elifs els =>
@@ -814,12 +934,16 @@ Fixpoint pure2_stmt (n : nat) (inloop infn : bool) (st : stmt) : bool :=
 Definition in_pure2_subset (p : prog) : bool := forallb (pure2_stmt PURE_DEPTH false false) p.
 
 (* ---------------------------------------------------------------- correspondence cases of the C16 harness *)
-(* P2Base: a case of Model/C16_Sort.v.  P2Pure: a generated program with the harness' verdict `flag` on membership in the
+(* P2Base: a case of Model/C16_Sort.v.  P2Pure: a program with the harness' verdict `flag` on membership in the
    enlarged fragment (computed on the Go AST), whether the real interpreter ran it without error, whether python3 then
    printed the same globals, and the globals the real interpreter printed. *)
 Inductive case :=
 | P2Base (c : C16_Sort.case)
-| P2Pure (flag : bool) (p : prog) (asp_ok agree : bool) (globals : list (str * obs)).
+| P2Pure (flag : bool) (p : prog) (asp_ok agree : bool) (globals : list (str * obs))
+(* P2Must: a FIXED program of the harness (stream pure3: one per construct of the third deepening, and the boundary cases of
+   each) on which the reference run has to succeed - so that every run exercises every construct under the hypothesis of the
+   theorem against the real interpreter and python3 *)
+| P2Must (p : prog) (asp_ok agree : bool) (globals : list (str * obs)).
 
 Definition check (c : case) : bool :=
   match c with
@@ -834,4 +958,10 @@ Definition check (c : case) : bool :=
             | _ => true
             end
           else true)
+  | P2Must p asp_ok agree globals =>
+      in_pure2_subset p
+      && match pure2_run FUEL p with
+         | Ok ps => asp_ok && agree && kvobs_eqb obs_plain_eqb (drop_funcs (pure2_obs ps)) (drop_funcs globals)
+         | _ => false
+         end
   end.
